@@ -12,9 +12,11 @@ func init() {
 		quick: []family{
 			{Name: "all", N: 4, W: 2},
 			{Name: "all-bits", N: 3, W: 4},
+			{Name: "big-work", N: 3, WSet: []uint32{core.BitsHuge, core.BitsMax, core.BitsLight}},
 			{Name: "forbidden", N: 3, W: 2, Forbidden: true},
 		},
 		thorough: []family{
+			{Name: "big-work", N: 4, WSet: []uint32{core.BitsHuge, core.BitsMax, core.BitsLight}},
 			{Name: "all", N: 5, W: 2},
 			{Name: "all-bits3", N: 4, W: 3},
 			{Name: "all-bits4", N: 3, W: 4},
